@@ -53,15 +53,15 @@ theorem buf_take_of_stream {inp : Bytes} {r : Rd} {X Y : Bytes} (h : stream inp 
     · rfl
 
 /-- `Peek(10)`, `Uvarint`, `Discard` on a stream that starts with an encoding of `v` -/
-theorem peekUvarint_put (inp : Bytes) (strict : Bool) (r : Rd) (hr : Inv r) (v : Nat) (hv : v < 2 ^ 64) (rest : Bytes)
+theorem peekUvarint_put (cfg : Cfg) (inp : Bytes) (strict : Bool) (r : Rd) (hr : Inv r) (v : Nat) (hv : v < 2 ^ 64) (rest : Bytes)
     (hs : stream inp r = putUvarint v ++ rest) (hstrict : strict = true → 10 ≤ (stream inp r).length) :
-    ∃ r', peekUvarint inp strict r = .ok (v, (putUvarint v).length, r') ∧ stream inp r' = rest ∧ Inv r' ∧
+    ∃ r', peekUvarintC cfg inp strict r = .ok (v, (putUvarint v).length, r') ∧ stream inp r' = rest ∧ Inv r' ∧
       r'.alloc = r.alloc ∧ r.pos ≤ r'.pos ∧ min 10 (stream inp r).length - (putUvarint v).length ≤ r'.buf.length := by
   obtain ⟨r1, hpk, hs1, hr1, ha1, hp1, hb1⟩ := peek10_spec inp r hr
   have hL := putUvarint_length_le v hv
   have hLS : (putUvarint v).length ≤ (stream inp r).length := by rw [hs]; simp
   have hLb : (putUvarint v).length ≤ r1.buf.length := by omega
-  unfold peekUvarint
+  unfold peekUvarintC
   rw [hpk]
   simp only
   have he : (strict && decide ((stream inp r).length < 10)) = false := by
@@ -73,6 +73,13 @@ theorem peekUvarint_put (inp : Bytes) (strict : Bool) (r : Rd) (hr : Inv r) (v :
   rw [hs, uvarint_put_take v hv rest]
   simp only
   rw [if_neg (by omega)]
+  have hpos := putUvarint_length_pos v
+  have hz : (cfg.lengthChecked && ((putUvarint v).length : Int) == 0) = false := by
+    have : (((putUvarint v).length : Int) == 0) = false := by
+      simp only [beq_eq_false_iff_ne, ne_eq]; omega
+    rw [this, Bool.and_false]
+  rw [hz]
+  simp only [Bool.false_eq_true, if_false]
   simp only [Int.toNat_natCast]
   rw [discard_spec inp _ r1 hLb]
   simp only [Bool.false_eq_true, if_false]
@@ -128,7 +135,7 @@ theorem readSegment_pinned (hl : ro.Lawful) (cfg : Cfg) (hcfg : cfg.boundedReads
     | some d => simp only [List.length_append]; have := putUvarint_length_pos (ro.enc d).length; omega
   -- 1. the type string
   rw [encSeg_eq, List.append_assoc] at hs
-  obtain ⟨r1, h1, hs1, hr1, ha1, hp1, hb1⟩ := peekUvarint_put inp true r hr s.typ.length (by omega) _ hs (by intro _; omega)
+  obtain ⟨r1, h1, hs1, hr1, ha1, hp1, hb1⟩ := peekUvarint_put cfg inp true r hr s.typ.length (by omega) _ hs (by intro _; omega)
   have hb1' : 9 ≤ r1.buf.length := by omega
   -- make([]byte, strLen) ; Read
   have hmk : makeBytes .str lim s.typ.length r1 = .ok { r1 with alloc := r1.alloc + s.typ.length } := by
@@ -150,7 +157,7 @@ theorem readSegment_pinned (hl : ro.Lawful) (cfg : Cfg) (hcfg : cfg.boundedReads
   -- 3. the id
   have hs3 : stream inp r3 = putUvarint s.id.toNat ++ (encDel ro s ++ rest) := by
     rw [hsp2.2, List.append_assoc]
-  obtain ⟨r4, h4, hs4, hr4, ha4, hp4, _⟩ := peekUvarint_put inp false r3 hr3 s.id.toNat s.id.isLt _ hs3 (by intro h; cases h)
+  obtain ⟨r4, h4, hs4, hr4, ha4, hp4, _⟩ := peekUvarint_put cfg inp false r3 hr3 s.id.toNat s.id.isLt _ hs3 (by intro h; cases h)
   have hpre : readVarLenString cfg inp lim r = .ok (s.typ, 1 + s.typ.length, r2) := by
     unfold readVarLenString
     simp only [hcfg, Bool.not_false]
@@ -165,14 +172,14 @@ theorem readSegment_pinned (hl : ro.Lawful) (cfg : Cfg) (hcfg : cfg.boundedReads
   simp only [ok_bind, hcfg, Bool.false_eq_true, if_false]
   rw [hrd2, hsp2.1]
   simp only [Bool.false_eq_true, if_false, be32get_be32]
-  show ∃ r', ((peekUvarint inp false r3) >>= _) = _ ∧ _
+  show ∃ r', ((peekUvarintC cfg inp false r3) >>= _) = _ ∧ _
   rw [h4]
   simp only [ok_bind]
   -- 4. the deleted set
   cases hdel : s.deleted with
   | none =>
     have hs4' : stream inp r4 = putUvarint 0 ++ rest := by rw [hs4]; simp [encDel, hdel]
-    obtain ⟨r5, h5, hs5, hr5, ha5, hp5, _⟩ := peekUvarint_put inp false r4 hr4 0 (by omega) _ hs4' (by intro h; cases h)
+    obtain ⟨r5, h5, hs5, hr5, ha5, hp5, _⟩ := peekUvarint_put cfg inp false r4 hr4 0 (by omega) _ hs4' (by intro h; cases h)
     rw [h5]
     simp only [ok_bind, Nat.lt_irrefl, if_false, gt_iff_lt]
     refine ⟨r5, ?_, hs5, hr5, ?_, ?_⟩
@@ -199,7 +206,7 @@ theorem readSegment_pinned (hl : ro.Lawful) (cfg : Cfg) (hcfg : cfg.boundedReads
     have hplS : (ro.enc d).length ≤ (stream inp r).length := by omega
     have hs4' : stream inp r4 = putUvarint (ro.enc d).length ++ (ro.enc d ++ rest) := by
       rw [hs4]; simp [encDel, hdel, List.append_assoc]
-    obtain ⟨r5, h5, hs5, hr5, ha5, hp5, _⟩ := peekUvarint_put inp false r4 hr4 (ro.enc d).length
+    obtain ⟨r5, h5, hs5, hr5, ha5, hp5, _⟩ := peekUvarint_put cfg inp false r4 hr4 (ro.enc d).length
       (by unfold maxAlloc at hmax; omega) _ hs4' (by intro h; cases h)
     rw [h5]
     simp only [ok_bind, gt_iff_lt, hpl, if_true, readDelBytes, hcfg, Bool.false_eq_true, if_false]
@@ -284,10 +291,10 @@ theorem readFrom_pinned (hl : ro.Lawful) (cfg : Cfg) (hcfg : cfg.boundedReads = 
   unfold readFrom readFromRd
   have hs0 : stream inp {} = putUvarint 1 ++ (putUvarint segs.length ++ ((segs.map (encSeg ro)).flatten ++ [])) := by
     rw [stream_init]; exact hbody
-  obtain ⟨r1, h1, hs1, hr1, ha1, hp1, _⟩ := peekUvarint_put inp false {} inv_init 1 (by omega) _ hs0 (by intro h; cases h)
+  obtain ⟨r1, h1, hs1, hr1, ha1, hp1, _⟩ := peekUvarint_put cfg inp false {} inv_init 1 (by omega) _ hs0 (by intro h; cases h)
   rw [h1]
   simp only [ok_bind, if_true]
-  obtain ⟨r2, h2, hs2, hr2, ha2, hp2, _⟩ := peekUvarint_put inp false r1 hr1 segs.length (by omega) _ hs1 (by intro h; cases h)
+  obtain ⟨r2, h2, hs2, hr2, ha2, hp2, _⟩ := peekUvarint_put cfg inp false r1 hr1 segs.length (by omega) _ hs1 (by intro h; cases h)
   rw [h2]
   simp only [ok_bind]
   have hlc : loopCount cfg segs.length = segs.length := by
@@ -318,7 +325,7 @@ theorem readSegment_guarded (hl : ro.Lawful) (cfg : Cfg) (hcfg : cfg.boundedRead
   -- 1. the type string
   rw [encSeg_eq] at hs
   simp only [List.append_assoc] at hs
-  obtain ⟨r1, h1, hs1, hr1, _, hp1, _⟩ := peekUvarint_put inp false r hr s.typ.length (by omega) _ hs (by intro h; cases h)
+  obtain ⟨r1, h1, hs1, hr1, _, hp1, _⟩ := peekUvarint_put cfg inp false r hr s.typ.length (by omega) _ hs (by intro h; cases h)
   obtain ⟨r2, h2, hs2, hr2, _, hp2⟩ := readChunked_spec inp (s.typ.length + 1) s.typ.length [] r1 hr1 (by omega)
     (by rw [hs1]; simp)
   rw [hs1, List.nil_append, List.take_left] at h2
@@ -331,7 +338,7 @@ theorem readSegment_guarded (hl : ro.Lawful) (cfg : Cfg) (hcfg : cfg.boundedRead
   have hs3' : stream inp r3 = putUvarint s.id.toNat ++ (encDel ro s ++ rest) := by
     rw [hs3, hs2]; exact List.drop_left' (be32_length _)
   -- 3. the id
-  obtain ⟨r4, h4, hs4, hr4, _, hp4, _⟩ := peekUvarint_put inp false r3 hr3 s.id.toNat s.id.isLt _ hs3' (by intro h; cases h)
+  obtain ⟨r4, h4, hs4, hr4, _, hp4, _⟩ := peekUvarint_put cfg inp false r3 hr3 s.id.toNat s.id.isLt _ hs3' (by intro h; cases h)
   have hpre : readVarLenString cfg inp lim r = .ok (s.typ, (putUvarint s.typ.length).length + s.typ.length, r2) := by
     unfold readVarLenString
     simp only [hcfg, Bool.not_true]
@@ -349,7 +356,7 @@ theorem readSegment_guarded (hl : ro.Lawful) (cfg : Cfg) (hcfg : cfg.boundedRead
   cases hdel : s.deleted with
   | none =>
     have hs4' : stream inp r4 = putUvarint 0 ++ rest := by rw [hs4]; simp [encDel, hdel]
-    obtain ⟨r5, h5, hs5, hr5, _, hp5, _⟩ := peekUvarint_put inp false r4 hr4 0 (by omega) _ hs4' (by intro h; cases h)
+    obtain ⟨r5, h5, hs5, hr5, _, hp5, _⟩ := peekUvarint_put cfg inp false r4 hr4 0 (by omega) _ hs4' (by intro h; cases h)
     rw [h5]
     simp only [ok_bind, Nat.lt_irrefl, if_false, gt_iff_lt]
     refine ⟨r5, ?_, hs5, hr5, by omega⟩
@@ -370,7 +377,7 @@ theorem readSegment_guarded (hl : ro.Lawful) (cfg : Cfg) (hcfg : cfg.boundedRead
       simp [encDel, hdel]
     have hs4' : stream inp r4 = putUvarint (ro.enc d).length ++ (ro.enc d ++ rest) := by
       rw [hs4]; simp [encDel, hdel, List.append_assoc]
-    obtain ⟨r5, h5, hs5, hr5, _, hp5, _⟩ := peekUvarint_put inp false r4 hr4 (ro.enc d).length
+    obtain ⟨r5, h5, hs5, hr5, _, hp5, _⟩ := peekUvarint_put cfg inp false r4 hr4 (ro.enc d).length
       (by omega) _ hs4' (by intro h; cases h)
     rw [h5]
     simp only [ok_bind, gt_iff_lt, hpl, if_true, readDelBytes, hcfg]
@@ -434,10 +441,10 @@ theorem readFrom_guarded (hl : ro.Lawful) (cfg : Cfg) (hcfg : cfg.boundedReads =
   unfold readFrom readFromRd
   have hs0 : stream inp {} = putUvarint 1 ++ (putUvarint segs.length ++ ((segs.map (encSeg ro)).flatten ++ [])) := by
     rw [stream_init]; exact hbody
-  obtain ⟨r1, h1, hs1, hr1, _, _, _⟩ := peekUvarint_put inp false {} inv_init 1 (by omega) _ hs0 (by intro h; cases h)
+  obtain ⟨r1, h1, hs1, hr1, _, _, _⟩ := peekUvarint_put cfg inp false {} inv_init 1 (by omega) _ hs0 (by intro h; cases h)
   rw [h1]
   simp only [ok_bind, if_true]
-  obtain ⟨r2, h2, hs2, hr2, _, _, _⟩ := peekUvarint_put inp false r1 hr1 segs.length (by omega) _ hs1 (by intro h; cases h)
+  obtain ⟨r2, h2, hs2, hr2, _, _, _⟩ := peekUvarint_put cfg inp false r1 hr1 segs.length (by omega) _ hs1 (by intro h; cases h)
   rw [h2]
   simp only [ok_bind]
   have hlc : loopCount cfg segs.length = segs.length := by
@@ -458,7 +465,8 @@ theorem readFrom_guarded (hl : ro.Lawful) (cfg : Cfg) (hcfg : cfg.boundedReads =
 
 /-- from the decoder's round trip to `loadSnapshot`'s: the whole body was pulled, so the CRC matches -/
 theorem loadSnapshot_of_readFrom (cfg : Cfg) (mmap : Bool) (segs : List (Seg R)) (ss : List (Seg R)) (n : Nat) (r : Rd)
-    (h : readFrom ro cfg (encBody ro segs) = .ok (ss, n, r)) (hs : stream (encBody ro segs) r = []) :
+    (h : readFrom ro cfg (encBody ro segs) = .ok (ss, n, r)) (hs : stream (encBody ro segs) r = [])
+    (hn : n = (encBody ro segs).length) :
     loadSnapshot ro cfg mmap (encFile ro segs) = .ok ss := by
   have hb : bodyOf (encFile ro segs) = encBody ro segs := by
     simp [bodyOf, encFile, be32_length]
@@ -473,6 +481,7 @@ theorem loadSnapshot_of_readFrom (cfg : Cfg) (mmap : Bool) (segs : List (Seg R))
     omega
   unfold loadSnapshot
   simp only [hb, h, ht, hpos]
+  rw [if_neg (by simp [hn])]
   rw [if_neg (by simp [encFile, be32_length])]
   simp
 
